@@ -5,10 +5,10 @@ from framework import *
 import json
 
 
-def proofs_or_violation(ctx, files):
+def proofs_or_violation(ctx, files, bridge=True):
     """builds the property's theorem files; a failed obligation is recorded and
     reported after the search for a failing input (done by the caller's streams)"""
-    ob, di, detail, ok, lg = check_proofs(ctx, files)
+    ob, di, detail, ok, lg = check_proofs(ctx, files, bridge)
     ctx.proof = {'obligations': ob, 'discharged': di, 'detail': detail, 'ok': ok}
     if not ok:
         ctx.proof['failure'] = getattr(ctx, 'proof_failure', None)
